@@ -226,9 +226,10 @@ Definition float_overflow (q : Q) : bool :=
   Qle_bool (inject_Z (2 ^ 1024 - 2 ^ 970)) q || Qle_bool q (inject_Z (- (2 ^ 1024 - 2 ^ 970))).
 
 (* DenseTimeInterpreter.time_unit_transformer before the final int() / float(): the bound in default units, as the
-   (reduced) Fraction the code holds; a whole number of default units stays a Python int (no overflow), anything
-   else becomes a float (OverflowError -> RTAMTException); never rejected for being off a grid *)
-Definition dense_overflow (q : Q) : bool := negb (is_int q) && float_overflow q.
+   (reduced) Fraction the code holds; float() is applied to every bound first (OverflowError -> RTAMTException, for whole
+   numbers too), then a whole number of default units stays a Python int and anything else becomes that float; never
+   rejected for being off a grid *)
+Definition dense_overflow (q : Q) : bool := float_overflow q.
 Definition to_dense (du : tunit) (i : interval) : outcome (Q * Q) :=
   let b := Qred (fst (to_default du i)) in
   let e := Qred (snd (to_default du i)) in
